@@ -498,8 +498,22 @@ def check_train(ctx, c):
     m = res >> ro
     Xarg = X if c["x_as"] == "array" else {res.name: X}
     Yarg = Y if c["y_as"] == "array" else {ro.name: Y}
+    # the training may come in two successive train() calls (cut at a multiple of learn_every, both pieces longer than one
+    # step): the second call carries on from the states the first one left, as the explicit loop does
+    k_ = c["learn_every"]
+    cut = None
+    if c["seed"] % 3 == 0 and c["T"] >= 2 * max(2, k_):
+        cut = k_ * max(1, (c["T"] // 2) // k_)
+        if cut < 2 or c["T"] - cut < 2:
+            cut = None
     try:
-        out = np.asarray(m.train(Xarg, Yarg, learn_every=c["learn_every"]), dtype=float)
+        if cut is not None:
+            sl = lambda a, lo, hi: ({n_: v[lo:hi] for n_, v in a.items()} if isinstance(a, dict) else a[lo:hi])  # noqa: E731
+            o1 = np.asarray(m.train(sl(Xarg, 0, cut), sl(Yarg, 0, cut), learn_every=k_), dtype=float)
+            o2 = np.asarray(m.train(sl(Xarg, cut, c["T"]), sl(Yarg, cut, c["T"]), learn_every=k_), dtype=float)
+            out = np.vstack([o1.reshape(cut, -1), o2.reshape(c["T"] - cut, -1)])
+        else:
+            out = np.asarray(m.train(Xarg, Yarg, learn_every=c["learn_every"]), dtype=float)
     except Exception as e:  # noqa
         ctx.violation(f"Model.train raised {type(e).__name__}: {e}", c, obligation=ob)
         return
@@ -507,6 +521,8 @@ def check_train(ctx, c):
     res2 = flow.make_node(c["res"], flow.fresh("t"))
     ro2 = make_online(c, flow.fresh("t"))
     preds = []
+    if cut is not None:
+        ctx.stat("training in two successive train() calls")
     for t in range(c["T"]):
         s = res2.call(X[t:t + 1])
         if t % c["learn_every"] == 0 or c["T"] == 1:
